@@ -660,7 +660,8 @@ SetBatchTimeout(m, on) ==
        IF ModRefused(m) THEN Refuse(NEG)
        ELSE IF Limited(S, m) /\ S.mod[m].tb.tok < need THEN Refuse(EAGAIN)
        ELSE IF on THEN Do(pay([S EXCEPT !.mod[m].bt = TRUE, !.mod[m].blen = IF @ = 0 THEN 99 ELSE @, !.idue = @ \ {<<m, "bt">>}, !.ret = 0]))
-       ELSE Do(pay([S EXCEPT !.mod[m].bt = FALSE, !.idue = @ \ {<<m, "bt">>}, !.ret = 0]))
+       \* (removing the timeout also removes the "unlimited" batch size that stood for timed batching alone)
+       ELSE Do(pay([S EXCEPT !.mod[m].bt = FALSE, !.mod[m].blen = IF @ = 99 THEN 0 ELSE @, !.idue = @ \ {<<m, "bt">>}, !.ret = 0]))
 BtFire(m) == /\ Can("BtFire") /\ AtTop /\ S.mod[m].st = "running" /\ S.mod[m].bt /\ <<m, "bt">> \notin S.idue
              /\ S' = [S EXCEPT !.idue = @ \cup {<<m, "bt">>}]
 
